@@ -104,7 +104,10 @@ func (dc *ClientDnsConnection) Close() error {
 		}
 	}
 
-	return dc.Communicator.Close()
+	err := dc.Communicator.Close()
+	// Release whoever is blocked in Read (the multiplexer's receive loop)
+	dc.in.Close()
+	return err
 }
 
 // Closed will return `true` if SafeStream.Close has been called at least once
